@@ -109,6 +109,10 @@ func (c06) Plan(tier string, seed int64) []core.Scenario {
 			out = append(out, core.Sc("rawids").WithN("set", set).WithN("order", order))
 		}
 	}
+	// reverse calls on a re-established connection, cancelled after handlers that belong to the old connection finished
+	for i := 0; i < 4; i++ {
+		out = append(out, core.Sc("stale-reverse-cancel").WithN("fk", i%2).WithN("old", 1+i%3).WithN("order", i/2))
+	}
 	for i := range out {
 		out[i].Seed = seed*15485863 + int64(i)
 		out[i] = out[i].WithN("noise", i%3)
@@ -118,6 +122,10 @@ func (c06) Plan(tier string, seed int64) []core.Scenario {
 
 func (p c06) Run(sc core.Scenario) core.Result {
 	r := core.NewR(sc)
+	if sc.Kind == "stale-reverse-cancel" {
+		p.staleReverseCancel(sc, r)
+		return r.Result()
+	}
 	if sc.Kind == "behind-auth" {
 		p.behindAuth(sc, r)
 		return r.Result()
@@ -760,4 +768,107 @@ func (c06) behindAuth(sc core.Scenario, r *core.R) {
 	r.Key("behind-auth "+tr, true)
 	r.Obs("contexts_live_at_cancel", 1)
 	r.Sample(map[string]interface{}{"scenario": where})
+}
+
+
+// staleReverseCancel: client-side handlers of reverse calls are still running (they ignore their context)
+// when the connection breaks and is re-established; the server makes new reverse calls on the new
+// connection (numbered from 1 again), the old handlers finish, and then the new reverse calls are
+// cancelled by their callers. The cancellation must reach the handlers of the new calls; a new call that
+// is not cancelled must keep a live context.
+func (c06) staleReverseCancel(sc core.Scenario, r *core.R) {
+	kind := []string{wsproxy.RST, wsproxy.FIN}[sc.I("fk")]
+	nOld := sc.I("old")
+	env := NewEnv(EnvOpt{Rev: true})
+	defer env.Shutdown()
+	c, err := env.NewClient(ClientOpt{RevIdent: "A", Opts: []jsonrpc.Option{jsonrpc.WithReconnectBackoff(5*time.Millisecond, 20*time.Millisecond)}})
+	if err != nil {
+		r.Inconclusive("client: %v", err)
+		return
+	}
+	bg := context.Background()
+	var oldToks []string
+	for i := 0; i < nOld; i++ {
+		t := Tok("o")
+		c.RevSvc.Hold(t + ".r0")
+		go c.Rev(bg, t, 1, 4)
+		if !c.RevSvc.WaitEntered(t+".r0", core.Grace) {
+			r.Inconclusive("old reverse handler never entered")
+			return
+		}
+		oldToks = append(oldToks, t)
+	}
+	env.Px.KillAll(kind)
+	if !probeUntilHealthy(c, r, 2*core.Grace) {
+		r.Inconclusive("link never healthy again")
+		return
+	}
+	type nc struct {
+		tok    string
+		cancel context.CancelFunc
+		out    *Outcome
+	}
+	var news []nc
+	for i := 0; i < nOld+1; i++ {
+		t := Tok("n")
+		ctx, cancel := context.WithCancel(bg)
+		defer cancel()
+		c.RevSvc.Hold(t + ".r0")
+		o := Go(t, func() (string, error) { return c.Rev(ctx, t, 1, 4) })
+		if !c.RevSvc.WaitEntered(t+".r0", core.Grace) {
+			r.Inconclusive("new reverse handler never entered")
+			return
+		}
+		news = append(news, nc{t, cancel, o})
+	}
+	release := func() {
+		for _, t := range oldToks {
+			c.RevSvc.Release(t + ".r0")
+		}
+		for _, t := range oldToks {
+			core.WaitCh(c.RevSvc.ExitedCh(t+".r0"), core.Grace)
+		}
+		time.Sleep(20 * time.Millisecond)
+	}
+	if sc.I("order") == 0 {
+		release() // the stale handlers finish first, then the new calls are cancelled
+	}
+	// all but the last new call are cancelled
+	for _, n := range news[:len(news)-1] {
+		n.cancel()
+	}
+	for _, n := range news[:len(news)-1] {
+		rec := c.RevSvc.Get(n.tok + ".r0")
+		ok := false
+		deadline := time.Now().Add(core.Grace)
+		for time.Now().Before(deadline) {
+			if rec.Ctx != nil && rec.Ctx.Err() != nil {
+				ok = true
+				break
+			}
+			time.Sleep(2 * time.Millisecond)
+		}
+		if !ok {
+			r.Violate("cancel-not-delivered:stale-reverse", "reverse call %s.r0 made on the re-established connection (%s, %d handlers of the old connection finished %s) was cancelled by its caller, but the context of its client-side handler is still live", n.tok, kind, nOld, []string{"before the cancel", "after the cancel"}[sc.I("order")])
+		}
+	}
+	if sc.I("order") == 1 {
+		release()
+	}
+	last := news[len(news)-1]
+	if rec := c.RevSvc.Get(last.tok + ".r0"); rec.Ctx != nil && rec.Ctx.Err() != nil {
+		r.Violate("cancel-hit-bystander:stale-reverse", "the handler context of reverse call %s.r0, which nobody cancelled, was cancelled (%v) when handlers of the old connection finished / siblings were cancelled", last.tok, rec.Ctx.Err())
+	}
+	for _, n := range news {
+		c.RevSvc.Release(n.tok + ".r0")
+	}
+	if !last.out.Wait(core.Grace) {
+		r.Violate("cancelled-call-hang:stale-reverse", "the uncancelled forward call with a nested reverse call never returned")
+	} else if last.out.Err != nil || last.out.Val != "A/"+last.tok+".r0" {
+		r.Violate("spurious-cancel:stale-reverse", "the uncancelled reverse call returned %q, %v", last.out.Val, last.out.Err)
+	}
+	r.Key(fmt.Sprintf("stale-reverse-cancel %s old=%d order=%d", kind, nOld, sc.I("order")), true)
+	r.Obs("reverse_calls", int64(2*nOld+1))
+	r.Sig(core.Log.Signature())
+	r.Sample(map[string]interface{}{"scenario": "reverse calls on a re-established connection cancelled around the end of handlers of the old connection", "old_handlers": nOld, "order": sc.I("order")})
 }
